@@ -182,6 +182,8 @@ pub struct Obs {
     pub model_generated: usize,
     /// what the reporter was told (join modes 1 and 2)
     pub report: Option<ReportObs>,
+    /// discovery(name) / assert_any_discovery / assert_no_discovery disagree with discoveries()
+    pub helper_mismatch: Option<String>,
 }
 
 #[derive(Clone)]
@@ -244,6 +246,37 @@ fn finals<C: Checker<GModel>>(c: &C, want_assert: bool) -> Finals {
         panic_msg(&e)
     });
     let is_done = c.is_done();
+    // the per-property helpers: discovery(name), assert_any_discovery(name), assert_no_discovery(name)
+    if want_assert {
+        if let Ok(d) = &discoveries {
+            let props = c.model().properties();
+            for p in props {
+                let quiet = |f: &dyn Fn()| -> bool {
+                    match catch_unwind(AssertUnwindSafe(f)) {
+                        Ok(()) => true,
+                        Err(e) => {
+                            if e.is::<SimShutdown>() {
+                                std::panic::resume_unwind(e)
+                            }
+                            false
+                        }
+                    }
+                };
+                let found = d.contains_key(p.name);
+                let one = c.discovery(p.name).map(path_to_vec);
+                let any_ok = quiet(&|| {
+                    let _ = c.assert_any_discovery(p.name);
+                });
+                let none_ok = quiet(&|| c.assert_no_discovery(p.name));
+                // with a discovery: any succeeds, none panics; without one: any panics, and none
+                // succeeds exactly when the check is done
+                let consistent = one.as_ref() == d.get(p.name) && any_ok == found && if found { !none_ok } else { none_ok == is_done };
+                if !consistent {
+                    HELPER_MISMATCH.with(|m| *m.borrow_mut() = Some(format!("{}: discoveries() has it = {}, discovery() = {:?}, assert_any_discovery ok = {}, assert_no_discovery ok = {}, is_done = {}", p.name, found, one.is_some(), any_ok, none_ok, is_done)));
+                }
+            }
+        }
+    }
     let assert_ok = if want_assert {
         match catch_unwind(AssertUnwindSafe(|| c.assert_properties())) {
             Ok(()) => Some(true),
@@ -285,6 +318,7 @@ fn early_assert<C: Checker<GModel>>(checker: &C, flag: &std::cell::Cell<bool>) {
     }
 }
 
+thread_local!(static HELPER_MISMATCH: std::cell::RefCell<Option<String>> = const { std::cell::RefCell::new(None) });
 thread_local!(static EARLY_ASSERT: std::cell::Cell<bool> = const { std::cell::Cell::new(false) });
 
 fn drive<C: Checker<GModel> + Send + Sync>(
@@ -293,6 +327,7 @@ fn drive<C: Checker<GModel> + Send + Sync>(
     checker: C,
 ) -> (JoinOutcome, Option<Finals>, Option<(u64, u64)>) {
     EARLY_ASSERT.with(|f| f.set(false));
+    HELPER_MISMATCH.with(|m| *m.borrow_mut() = None);
     if sc.polls > 0 && sc.graph.panic.is_none() {
         EARLY_ASSERT.with(|f| early_assert(&checker, f));
     }
@@ -444,6 +479,7 @@ pub fn run_s1(sc: &S1Scenario) -> Obs {
         assert_ok_before_done: EARLY_ASSERT.with(|f| f.get()),
         model_generated: model.generated.load(std::sync::atomic::Ordering::Relaxed),
         report: REPORT_OBS.with(|r| r.borrow_mut().take()),
+        helper_mismatch: HELPER_MISMATCH.with(|m| m.borrow_mut().take()),
         panic_fired: sc.graph.panic.is_some() && !model.panic_armed.load(std::sync::atomic::Ordering::SeqCst),
     }
 }
